@@ -6,7 +6,9 @@ namespace Gen.C15
 
 def isFeasible (total budget : Rat) : Bool := (decide (total ≤ budget))
 
-def isTrivial (total budget minCost : Rat) : Bool := ((decide (total ≤ budget)) || (decide (budget ≤ minCost)))
+def isTrivial (total budget : Rat) (noneFits : Bool) : Bool := ((decide (total ≤ budget)) || noneFits)
+
+def singleDoesNotFit (budget c : Rat) : Bool := (decide (budget < c))
 
 def fitsOnTop (inW : Bool) (c cost budget : Rat) : Bool := ((!inW) && (decide ((c + cost) ≤ budget)))
 
